@@ -12,6 +12,7 @@
 //!   f <idx> <fault>                       fault at global request index <idx> of this scenario:
 //!        T | P                   transient / persistent source error
 //!        S:<y>:<dh>:<dw>         answer as for block <y>, claimed height + dh, claimed chainwork + dw
+//!        F:<dh>:<dw>             answer for the requested block itself with shifted height / chainwork claims
 //!        M                       (get_block) full block with corrupted transaction list
 //!        H                       (get_block) flip full block <-> header only
 //!   sync <best_id> <hint 0|1>             -> "S <rc> <nreq> | <log l0> | <log l1> ..."
@@ -218,6 +219,7 @@ enum Fault {
 	T,
 	P,
 	S(u32, i64, i128),
+	F(i64, i128),
 	M,
 	H,
 }
@@ -258,6 +260,10 @@ impl BlockSource for Src {
 					dh = a;
 					dw = b;
 				},
+				Some(Fault::F(a, b)) => {
+					dh = a;
+					dw = b;
+				},
 				_ => {},
 			}
 			match idx {
@@ -288,7 +294,7 @@ impl BlockSource for Src {
 				Some(Fault::S(y, _, _)) => idx = self.tree.by_id.get(&y).copied(),
 				Some(Fault::M) => corrupt = true,
 				Some(Fault::H) => full = !full,
-				None => {},
+				Some(Fault::F(_, _)) | None => {},
 			}
 			match idx {
 				None => Err(BlockSourceError::transient("block not found")),
@@ -325,6 +331,7 @@ impl BlockSource for Src {
 					best = y;
 					dh = a;
 				},
+				Some(Fault::F(a, _)) => dh = a,
 				_ => {},
 			}
 			let b = self.tree.get(best);
@@ -397,6 +404,7 @@ fn parse_fault(s: &str) -> Fault {
 		"M" => Fault::M,
 		"H" => Fault::H,
 		"S" => Fault::S(p[1].parse().unwrap(), p[2].parse().unwrap(), p[3].parse().unwrap()),
+		"F" => Fault::F(p[1].parse().unwrap(), p[2].parse().unwrap()),
 		_ => panic!("bad fault {}", s),
 	}
 }
